@@ -22,6 +22,7 @@ type hCfg struct {
 	MaxSess      int  // live sessions per history
 	Steps        int  // operations per history (after association setup)
 	PChoose      int  // percent of uplink PDRs with CHOOSE F-TEID
+	KeyChangeUP4 bool // (C04 only) histories with key-changing Update PDRs on UP4: mismatches after one are one recorded finding
 	PChooseDL    int  // percent of downlink (core-side) PDRs that also carry a CHOOSE F-TEID (N9-style); response checks only
 	PAlloc       int  // percent of sessions asking for UE IP allocation (agent must have it enabled)
 	PSDF         int  // percent of PDRs with an SDF filter
@@ -78,6 +79,7 @@ type hRunner struct {
 	trace []string
 	rejected int // requests inside the envelope that the agent rejected
 	ghosts   []mGhost
+	sawKeyChange bool // an Update PDR changed a match key in this history
 	ghostPeers map[uint32]bool // GTP peers a FAR was moved away from by an Update FAR
 	precByFilter map[mFilter]uint32
 
@@ -421,7 +423,23 @@ func (h *hRunner) genMod(a int, s *mSession) *hOp {
 		nq := h.genQER(q.Spec.ID)
 		nq.QFI = q.Spec.QFI
 		mod.UpQER = append(mod.UpQER, nq)
+	case "uppdr-same":
+		// an Update PDR that re-sends the PDR as it is (what a control plane does when it refreshes a rule):
+		// nothing may change in the datapath
+		p := s.PDRs[rng.Intn(len(s.PDRs))]
+		np := p.Spec
+		if p.Uplink && p.Spec.FTEID {
+			np.Choose, np.TEID, np.TunIP = false, p.TEID, vIPStr(p.TunIP)
+		}
+		if p.Spec.UE {
+			np.UEFlag, np.UEIP = 0x02, vIPStr(p.UE)
+		}
+		if p.Flow != nil {
+			op.Flows[np.ID] = p.Flow
+		}
+		mod.UpPDR = append(mod.UpPDR, np)
 	case "uppdr":
+		h.sawKeyChange = true
 		p := s.PDRs[rng.Intn(len(s.PDRs))]
 		np := p.Spec
 		// keep resolved identifiers: an Update PDR carries the concrete F-TEID / UE address
